@@ -4,6 +4,7 @@ import copy
 from autobean_refactor import models
 from autobean_refactor.models import base, internal
 import intro, edits, docs, treedump, session
+from autobean_refactor.models import base as base_mod
 
 ID = 'C20'
 PROPERTY_FILE = 'Autobean/Properties/C20.lean'
@@ -454,6 +455,41 @@ def judge_slot_swap(ctx):
                     return
 
 
+def judge_after_slice_grid(ctx, judge):
+    """copy == original after every kind of index / slice assignment of TREE-valued entries (directives, postings, cost
+    components; lists of 2-4 entries; plain, stepped and reversed slices; integer indexes): whichever call shape put an
+    entry in place, the entry is part of the document like any other."""
+    import slicegrid
+    for name, mk, path, attr, val in slicegrid.REGIMES:
+        if name not in ('file.directives', 'txn.postings', 'cost.components'):
+            continue
+        for n in (2, 3, 4):
+            text = mk(n)
+            base = {'path': path, 'attr': attr, 'parent': path, 'field': attr}
+            ops = []
+            for start, stop, step in ((None, None, 2), (None, None, -1), (1, None, 2), (None, None, -2), (0, 2, None), (None, None, None), (-1, None, -2)):
+                k = len(range(n)[slice(start, stop, step)])
+                ops.append({'k': 'setitem', 'kind': 'rep-setslice', 'idx': ['slice', start, stop, step], 'val': {'t': 'list', 'items': [val(i) for i in range(k)]}, **base})
+            ops += [{'k': 'setitem', 'kind': 'rep-setitem', 'idx': i, 'val': val(1), **base} for i in range(-n, n)]
+            for op in ops:
+                a = parse(text, True)
+                try:
+                    if edits.apply_op(a, op)[0] != 'ok':
+                        continue
+                    c = copy.deepcopy(a)
+                except Exception:   # noqa: BLE001 - donor problems, refused edits and failing copies are not C20's business
+                    continue
+                ctx.case(('copy-after-slice-grid', name, n, str(op['idx'])))
+                rp = {'text': text, 'auto_claim': True, 'site': None, 'edits': [op]}
+                judge.pair('copy', a, c, rp, expect=True, lock=False)
+                try:
+                    h = intro.resolve(a, op['path'])
+                    if isinstance(h, base_mod.RawTreeModel) and h is not a:
+                        judge.pair('copy', h, copy.deepcopy(h), {**rp, 'copy_sub_api': op['path']}, expect=True, lock=False)
+                except Exception:   # noqa: BLE001
+                    pass
+
+
 def judge_hash_after_edit(ctx, root, replay):
     """Token == is consistent with hash also after in-place edits: hash a token, change it through its setters, then
     compare it (and its hash) with an independently built token of the same RULE and text."""
@@ -519,6 +555,7 @@ def run(ctx, ndocs=None, lockstep=True):
     for fx in SWAP_FIXTURES:
         judge_owner_swap(ctx, fx, True)
     judge_slot_swap(ctx)
+    judge_after_slice_grid(ctx, judge)
     corpus = list(docs.corpus('File'))
     for _ in range(ndocs):
         text = r.choice(corpus) if corpus and r.random() < 0.3 else docs.gen_file(r, r.choice((1, 2, 3, 5)))
